@@ -60,6 +60,7 @@ type Eval struct {
 	inChain                         int
 	probeName, probeOff             string
 	probing                         int
+	allowLocals                     int
 }
 
 func (ev *Eval) heap() *Heap {
@@ -104,8 +105,8 @@ func (vc *VC) resolveLocal(ev *Eval, name string, li *loopInfo) (EVal, bool) {
 		if !ok {
 			break
 		}
-		if phi.Comment == name {
-			return EVal{T: phi.Type(), Terms: get(phi)}, true
+		if phi.Comment == name || (name == "$idx" && phi.Comment == "rangeindex") {
+			return EVal{T: phi.Type(), Terms: get(phi), Untyped: name == "$idx"}, true
 		}
 	}
 	// enclosing loops' phis
@@ -163,6 +164,39 @@ func (vc *VC) resolveLocal(ev *Eval, name string, li *loopInfo) (EVal, bool) {
 	return EVal{T: best.X.Type(), Terms: get(best.X)}, true
 }
 
+// resolveLocalAtBlock finds the SSA value a source variable denotes at the end of block blk:
+// the latest reference to a variable of that name whose value dominates blk.
+func (vc *VC) resolveLocalAtBlock(ev *Eval, name string, blk *ssa.BasicBlock) (EVal, bool) {
+	var best *ssa.DebugRef
+	for _, b := range vc.fn.Blocks {
+		if !(b == blk || b.Dominates(blk)) {
+			continue
+		}
+		for _, in := range b.Instrs {
+			dr, ok := in.(*ssa.DebugRef)
+			if !ok {
+				continue
+			}
+			obj := dr.Object()
+			if obj == nil || obj.Name() != name {
+				continue
+			}
+			if best == nil || best.Block() == b || best.Block().Dominates(b) {
+				best = dr
+			}
+		}
+	}
+	if best == nil {
+		return EVal{}, false
+	}
+	if best.IsAddr {
+		pt := best.X.Type().Underlying().(*types.Pointer)
+		a := ptrAddr(vc.val(best.X)[0])
+		return EVal{T: pt.Elem(), Addr: &a}, true
+	}
+	return EVal{T: best.X.Type(), Terms: vc.val(best.X)}, true
+}
+
 // ---------------------------------------------------------------- entry points
 
 func (ev *Eval) boolExpr(e Expr, goal bool) (string, error) {
@@ -199,7 +233,29 @@ func (ev *Eval) rv(v EVal) []string {
 		}
 	}
 	if closed {
-		ev.vc.assumeLoadRanges(terms, v.T, *ev.heap())
+		// name the loaded leaves: keeps nested accesses (s.rounds[i] ...) small
+		ls := ev.vc.L.Leaves(v.T)
+		key := ""
+		for _, t := range terms {
+			key += t + "|"
+		}
+		if ev.vc.root().ldCache == nil {
+			ev.vc.root().ldCache = map[string][]string{}
+		}
+		if named, ok := ev.vc.root().ldCache[key]; ok {
+			return named
+		}
+		named := make([]string, len(terms))
+		for i, t := range terms {
+			if i < len(ls) && !isSimpleTerm(t) {
+				named[i] = ev.vc.define("ld", ls[i].Sort.SMT(), t)
+			} else {
+				named[i] = t
+			}
+		}
+		ev.vc.root().ldCache[key] = named
+		ev.vc.assumeLoadRanges(named, v.T, *ev.heap())
+		return named
 	}
 	return terms
 }
@@ -778,6 +834,9 @@ func (ev *Eval) index(base, idx EVal) (EVal, error) {
 	case *types.Map:
 		m := ev.rv(base)[0]
 		vals, _ := ev.vc.mapLookup(ev.heap(), m, u, it[0])
+		if kl, ok := ev.vc.mapKeyLeaf(u); ok {
+			ev.pats = append(ev.pats, sel(sel(ev.vc.mapDom(ev.heap(), kl), m), it[0]))
+		}
 		return EVal{T: u.Elem(), Terms: vals}, nil
 	case *types.Pointer:
 		if at, ok := u.Elem().Underlying().(*types.Array); ok {
@@ -811,6 +870,9 @@ func (ev *Eval) binary(x *EBin) (EVal, error) {
 			return EVal{}, fmt.Errorf("'in' needs a map on the right")
 		}
 		_, has := ev.vc.mapLookup(ev.heap(), ev.rv(m)[0], mt, ev.rv(k)[0])
+		if kl, ok := ev.vc.mapKeyLeaf(mt); ok {
+			ev.pats = append(ev.pats, sel(sel(ev.vc.mapDom(ev.heap(), kl), ev.rv(m)[0]), ev.rv(k)[0]))
+		}
 		return bval(has), nil
 	}
 	a, err := ev.expr(x.X)
@@ -991,12 +1053,12 @@ func (ev *Eval) callExpr(c *ECall) (EVal, error) {
 		if err != nil {
 			return EVal{}, err
 		}
-		if v.Addr == nil {
-			return EVal{}, fmt.Errorf("held() needs an addressable mutex")
+		a, mt, err := ev.mutexAddr(v)
+		if err != nil {
+			return EVal{}, err
 		}
-		a := *v.Addr
 		if c.Fn == "rheld" {
-			a = a.Plus(ev.vc.rwReaderSlot(v.T))
+			a = a.Plus(ev.vc.rwReaderSlot(mt))
 		}
 		return ival(sel(sel(sel(ev.heap().H[SInt], a.Obj), a.Slot), a.Idx)), nil
 	case "fresh":
@@ -1151,6 +1213,18 @@ func (ev *Eval) specValue(sf *SpecFunc, c *ECall) (EVal, error) {
 	return r, err
 }
 
+// mutexAddr: the address of a mutex denoted by a value of type sync.(RW)Mutex (addressable) or
+// a pointer to one.
+func (ev *Eval) mutexAddr(v EVal) (Addr, types.Type, error) {
+	if p, ok := v.T.Underlying().(*types.Pointer); ok {
+		return ptrAddr(ev.rv(v)[0]), p.Elem(), nil
+	}
+	if v.Addr == nil {
+		return Addr{}, nil, fmt.Errorf("mutex expression is not addressable")
+	}
+	return *v.Addr, v.T, nil
+}
+
 // lvalue evaluates an expression to its address.
 func (ev *Eval) lvalue(e Expr) (Addr, types.Type, error) {
 	v, err := ev.expr(e)
@@ -1180,11 +1254,17 @@ type modLoc struct {
 // modLoc interprets a modifies entry:  x.f   x.f[*]   x.*   *p   x.m[*] (map contents)
 func (ev *Eval) modLoc(e Expr) ([]modLoc, error) {
 	if s, ok := e.(*ESel); ok && s.Name == "$all" {
-		a, _, err := ev.lvalue(s.X)
+		v, err := ev.expr(s.X)
 		if err != nil {
 			return nil, err
 		}
-		return []modLoc{{a: a, allObj: true}}, nil
+		if _, isP := v.T.Underlying().(*types.Pointer); isP {
+			return []modLoc{{a: ptrAddr(ev.rv(v)[0]), allObj: true}}, nil
+		}
+		if v.Addr == nil {
+			return nil, fmt.Errorf("$all of a non-addressable value")
+		}
+		return []modLoc{{a: *v.Addr, allObj: true}}, nil
 	}
 	if ix, ok := e.(*EIndex); ok {
 		if id, ok := ix.I.(*EIdent); ok && id.Name == "*" {
